@@ -40,15 +40,22 @@ Theorem C13_random_cover : forall n m p1 p2, 0 < n -> n <= 2 * m ->
   forall j, j < n -> In j (a ++ b).
 Proof. exact random_connections_cover. Qed.
 
-(* conv 'random-unique': a prefix of a permutation of the strict upper triangle: distinct, i < j < P;
-   distinct position indices are distinct receptive-field positions (2-D and any number of axes) *)
-Theorem C13_conv_unique : forall P s perm, s <= P * (P - 1) / 2 ->
-  Permutation perm (seq 0 (length (triu P))) -> s <= length (triu P) ->
-  exists ps, conv_unique_pairs P s perm = Some ps /\ length ps = s /\ NoDup ps /\
+(* conv 'random-unique': the first s distinct numbers among draws below the number of pairs, each turned back into its pair of the
+   strict upper triangle: s pairs, distinct, i < j < P, whatever was drawn (the hypothesis on the length says the sampling loop
+   has ended); distinct position indices are distinct receptive-field positions (2-D and any number of axes) *)
+Theorem C13_conv_unique : forall P s draws, s <= P * (P - 1) / 2 ->
+  Forall (fun v => v < length (triu P)) draws ->
+  length (first_distinct s draws []) = s ->
+  exists ps, conv_unique_pairs P s draws = Some ps /\ length ps = s /\ NoDup ps /\
     forall p, In p ps -> fst p < snd p /\ snd p < P.
 Proof. exact conv_unique_ok. Qed.
 
-Theorem C13_conv_unique_rejects : forall P s perm, P * (P - 1) / 2 < s -> conv_unique_pairs P s perm = None.
+(* the sampler's arithmetic: the pair of number v is (i, v - start i + i + 1) for the row i whose numbers contain v *)
+Theorem C13_unrank_arith : forall P i v, i < P -> row_start P i <= v < row_start P (S i) ->
+  unrank P v = (i, v - row_start P i + i + 1).
+Proof. exact unrank_arith. Qed.
+
+Theorem C13_conv_unique_rejects : forall P s draws, P * (P - 1) / 2 < s -> conv_unique_pairs P s draws = None.
 Proof. exact conv_unique_rejects. Qed.
 
 Theorem C13_positions_distinct : forall dims i j, Forall (fun d => 0 < d) (tl dims) ->
@@ -80,3 +87,4 @@ Eval compute in "PA:C13_conv_unique"%string. Print Assumptions C13_conv_unique.
 Eval compute in "PA:C13_conv_unique_rejects"%string. Print Assumptions C13_conv_unique_rejects.
 Eval compute in "PA:C13_positions_distinct"%string. Print Assumptions C13_positions_distinct.
 Eval compute in "PA:C13_tree"%string. Print Assumptions C13_tree.
+Eval compute in "PA:C13_unrank_arith"%string. Print Assumptions C13_unrank_arith.
